@@ -394,7 +394,7 @@ func rulePrune(c *Ctx, r *Report) {
 // ---- C17 / C01: enums ----------------------------------------------------------
 
 func ruleEnumLib(c *Ctx, r *Report) {
-	r.Rule("R-ENUM-LIB", "enumFieldToString treats exactly the value 0 as UNSET, every name it returns comes from a successful lookup and an unknown value is an error; castToEnumValue consults the type's own ΛMap on every call (no cache keyed by bare type name) and compares names exactly first, then with the module prefix stripped on both sides", 7)
+	r.Rule("R-ENUM-LIB", "enumFieldToString treats exactly the value 0 as UNSET, every name it returns comes from a successful lookup and an unknown value is an error; castToEnumValue consults the type's own ΛMap on every call (no cache keyed by bare type name) and compares names exactly first, then with the module prefix stripped on both sides", 5)
 	if f := c.MustFunc(r, "ygot", "enumFieldToString"); f != nil {
 		info := f.Info()
 		// unset test
